@@ -80,7 +80,7 @@ Definition dispatch_graph (op : N) (args : list sx) : option sx :=
                                else SL [sx_bool false; SL []; sx_bool false; sx_bool false]
                            | _ => SL [SA 2; SL []]
                            end) (un_model m)
-  | 503, [m] => option_map (fun m => SL [sx_bool (shape_domain m)]) (un_model m)
+  | 503, [m] => option_map (fun m => SL [sx_bool (shape_domain m); sx_bool (model_valid m)]) (un_model m)
   | 500, [m] => option_map (fun m => sx_gresult (wbuild m)) (un_model m)
   | 501, [o; m] =>
       match un_opt (un_listof un_str) o, un_model m with
